@@ -158,6 +158,20 @@ namespace Clipper2Lib {
     // as it greatly improves the likelihood of edge adjacency in ProcessIntersectList().
   }
 
+  // As TopX, but well defined when currentY is (far) outside the edge's
+  // vertical range: DoHorizontal extrapolates edges to the level of the
+  // horizontal's next vertex, where dx * dy can exceed the int64_t range
+  // (and converting such a double to an integer is undefined behaviour).
+  inline int64_t TopXExtrapolated(const Active& ae, const int64_t currentY)
+  {
+    if ((currentY == ae.top.y) || (ae.top.x == ae.bot.x)) return ae.top.x;
+    else if (currentY == ae.bot.y) return ae.bot.x;
+    const double d = nearbyint(ae.dx * static_cast<double>(currentY - ae.bot.y));
+    if (d >= max_coord) return INT64_MAX;
+    else if (d <= min_coord) return INT64_MIN;
+    else return ae.bot.x + static_cast<int64_t>(d);
+  }
+
 
   inline bool IsHorizontal(const Active& e)
   {
@@ -2665,18 +2679,18 @@ namespace Clipper2Lib {
               //with open paths we'll only break once past horz's end
               if (IsOpen(*e) && !IsSamePolyType(*e, horz) && !IsHotEdge(*e))
               {
-                if (TopX(*e, pt.y) > pt.x) break;
+                if (TopXExtrapolated(*e, pt.y) > pt.x) break;
               }
               //otherwise we'll only break when horz's outslope is greater than e's
-              else if (TopX(*e, pt.y) >= pt.x) break;
+              else if (TopXExtrapolated(*e, pt.y) >= pt.x) break;
             }
             else
             {
               if (IsOpen(*e) && !IsSamePolyType(*e, horz) && !IsHotEdge(*e))
               {
-                if (TopX(*e, pt.y) < pt.x) break;
+                if (TopXExtrapolated(*e, pt.y) < pt.x) break;
               }
-              else if (TopX(*e, pt.y) <= pt.x) break;
+              else if (TopXExtrapolated(*e, pt.y) <= pt.x) break;
             }
           }
         }
